@@ -66,12 +66,14 @@ def leaf(kind, i):
         return {"type": "verif-stub", "text": f'(resource["{f}"] == 1) || (resource["{g}"] == 1)'}, (lambda V: z3.Or(V[f] == 1, V[g] == 1)), [f, g]
     if kind == "stub-bslash-or":  # a string literal ending in an escaped backslash, an empty literal, then a top-level ||
         return {"type": "verif-stub", "text": f'resource["{f}"] == 1 && "\\\\" != "" || resource["{g}"] == 1'}, (lambda V: z3.Or(V[f] == 1, V[g] == 1)), [f, g]
+    if kind == "stub-apos-or":  # an apostrophe inside a double-quoted literal (and a quote inside a single-quoted one), then a top-level ||
+        return {"type": "verif-stub", "text": f'resource["{f}"] == 1 && "O\'B" != "" || resource["{g}"] == 1'}, (lambda V: z3.Or(V[f] == 1, V[g] == 1)), [f, g]
     if kind == "stub-not":
         return {"type": "verif-stub", "text": f'! [1].contains(resource["{f}"])'}, (lambda V: z3.Not(V[f] == 1)), [f]
     raise ValueError(kind)
 
 
-KINDS = ["eq", "ni", "gt", "stub-or", "stub-and", "stub-cond", "stub-not", "stub-paren-and", "stub-paren-or", "stub-bslash-or"]
+KINDS = ["eq", "ni", "gt", "stub-or", "stub-and", "stub-cond", "stub-not", "stub-paren-and", "stub-paren-or", "stub-bslash-or", "stub-apos-or"]
 
 
 def trees(nleaves, depth):
@@ -133,7 +135,7 @@ def cases(tier):
     out = []
     maxl, depth = (3, 2) if tier == "quick" else (4, 2)
     rot = [["eq", "eq", "eq", "eq"], ["eq", "stub-or", "ni", "stub-cond"], ["stub-and", "eq", "stub-not", "gt"], ["stub-cond", "stub-or", "eq", "eq"],
-           ["ni", "stub-not", "stub-or", "stub-and"], ["stub-paren-and", "stub-bslash-or", "eq", "stub-paren-or"], ["stub-bslash-or", "stub-paren-or", "gt", "stub-paren-and"]]
+           ["ni", "stub-not", "stub-or", "stub-and"], ["stub-paren-and", "stub-bslash-or", "eq", "stub-paren-or"], ["stub-bslash-or", "stub-paren-or", "gt", "stub-paren-and"], ["eq", "stub-apos-or", "stub-paren-and", "ni"]]
     for n in range(1, maxl + 1):
         for ti, t in enumerate(trees(n, depth)):
             top = t if t[0] == "list" else ("list", [t])  # `filters:` is always a list
